@@ -17,8 +17,11 @@ def bases(rng, n):
             out.append("".join(rng.choice("ACGT") for _ in range(m)))
         elif r < 0.80:
             out.append("".join(rng.choice("acgt") for _ in range(m)))
-        elif r < 0.90:
+        elif r < 0.86:
             out.append("".join(rng.choice("ACGTacgtNn") for _ in range(m)))
+        elif r < 0.90:
+            # IUPAC ambiguity codes, as found in real reference sequences
+            out.append("".join(rng.choice("RYKMBVDHSWrykmbvdhswACGT") for _ in range(min(m, 30))))
         else:
             out.append(rng.choice("Nn") * min(m, 25))
     return "".join(out)[:n]
